@@ -699,13 +699,21 @@ public:
 
 	~CMsgPackReadObjectScope()
 	{
-		ResetKey();
-		// Skip key/values that was not read
-		for (size_t c = mIndex; c < mSize; ++c)
+		try
 		{
-			mMsgPackReader->SkipValue();
-			mMsgPackReader->SkipValue();
-			++mIndex;
+			ResetKey();
+			// Skip key/values that was not read
+			for (size_t c = mIndex; c < mSize; ++c)
+			{
+				mMsgPackReader->SkipValue();
+				mMsgPackReader->SkipValue();
+				++mIndex;
+			}
+		}
+		catch (...)
+		{
+			// Destructor must not throw (would terminate the process), the error will be thrown at the end of serialization
+			GetContext().SetDeferredError(std::current_exception());
 		}
 	}
 
